@@ -93,6 +93,7 @@ def mutex_prop(pid, pbit, fair_only=False):
 
 
 SEM = "sync::semaphore::verif_sem::proofs"
+SEMSH = "sync::semaphore::if_alloc::verif_sem_shared::proofs"
 SEM_FUNCS = [
     "SemaphoreState::wakeup_waiters", "SemaphoreState::release", "SemaphoreState::try_acquire_sync",
     "SemaphoreState::try_acquire", "SemaphoreState::remove_waiter", "SemaphoreState::force_remove_waiter",
@@ -134,6 +135,11 @@ def sem_prop(pid, pbit, modes, step_names, extra_quick=(), extra_thorough=()):
         hj("p3_n6", 3, 6, thorough, est=1200)
         hj("p2_n5", 2, 5, thorough, lock="check", est=600, suffix="_check")
         hj("p3_n7", 3, 7, thorough, est=3000, bonus=True)
+    if pid in ("C05", "C06"):
+        thorough.append(H(SEMSH, "hist_%s_n4" % tag, "hold", replay=("semsh_hist_noop", 2), mask=P(pbit), est_s=400, est_gb=5, timeout=3000,
+                          bounds="E-HIST SHARED (Arc) semaphore: 2 acquire futures, permits 0..2, requests 1..2, N=4 operations, both fairness modes"))
+        thorough.append(H(SEMSH, "hist_%s_n5" % tag, "hold", replay=("semsh_hist_noop", 2), mask=P(pbit), est_s=1500, est_gb=6, timeout=3300, bonus=True,
+                          bounds="E-HIST shared semaphore N=5 (bonus)"))
     quick.append(H(SEM, "witness_release_p2_n4", "witness", replay=("sem_hist_noop", sem_cfg(2, 2)), mask=PALL,
                    witness_bit=1, est_s=150, bounds="witness twin: must reach 'release wakes the head with 2 pending'"))
     quick += list(extra_quick)
@@ -470,9 +476,6 @@ MPMC_WITNESSES = [
 ]
 
 
-SEMSH = "sync::semaphore::if_alloc::verif_sem_shared::proofs"
-
-
 def c01_prop():
     full = dict(profile="full")
     quick = [
@@ -536,7 +539,7 @@ def c17_prop():
               for (m, n) in ((MUTEX, "repoll_panics"), (SEM, "repoll_panics"), (EVENT, "repoll_panics"), (ONESHOT, "repoll_panics"),
                              (ONESHOT_BC, "repoll_panics"), (STATE, "repoll_panics"), (TIMER, "repoll_panics"), (TIMER, "repoll_panics_send_facade"),
                              (MPMC, "repoll_panics_send"), (MPMC, "repoll_panics_receive"), (LIFE, "repoll_panics_shared_send"),
-                             (LIFE, "repoll_panics_shared_receive"), (LIFE, "repoll_panics_shared_state"))]
+                             (LIFE, "repoll_panics_shared_receive"), (LIFE, "repoll_panics_shared_state"), (SEMSH, "repoll_panics"))]
     for cap in (0, 1):
         for cn in ("ps", "pr", "dc"):
             quick.append(H(MPMC, "step_c17_c%d_%s" % (cap, cn), "step", est_s=60, est_gb=1.5, bounds="E-STEP mpmc capacity %d class %s: is_terminated()" % (cap, cn)))
@@ -565,6 +568,8 @@ def c17_prop():
         H(ONESHOT_BC, "hist_c17_n7", "hold", replay=("oneshot_bc_hist_noop", 0), mask=P(17), est_s=900, timeout=3000, bounds="E-HIST oneshot-broadcast N=7"),
         H(STATE, "hist_c17_n7", "hold", replay=("state_hist_noop", 0), mask=P(17), est_s=900, timeout=3000, bounds="E-HIST state-broadcast N=7"),
         H(MPMC, "hist_c17_c1_st_p3_n5", "hold", replay=("mpmc_hist_noop", mpmc_cfg(1, "st", 3, 1)), mask=P(17), est_s=600, est_gb=4, timeout=3000, bounds="E-HIST mpmc stream, prefix 3"),
+        H(SEMSH, "hist_c17_n4", "hold", replay=("semsh_hist_noop", 2), mask=P(17), est_s=400, est_gb=5, timeout=3000,
+          bounds="shared semaphore acquire future: is_terminated() after every operation, N=4 (Option<Arc> restored after a Pending poll)"),
         H(LIFE, "life_c17_mpmc_n4", "hold", replay=("life_mpmc", 0), mask=P(17), est_s=1500, est_gb=16, timeout=3000, bonus=True, bounds="shared mpmc receive future over handle histories (bonus: memory-hungry)"),
     ]
     return {"quick": quick, "thorough": thorough, "functions": ["every Future::poll / FusedFuture::is_terminated / Stream::poll_next / FusedStream::is_terminated impl of the crate"],
@@ -766,6 +771,8 @@ def decode_life(cfg, script):
     return out
 
 
+DECODERS["semsh_hist_noop"] = decode_raw
+DECODERS["semsh_hist_check"] = decode_raw
 DECODERS["life_mpmc_discard"] = decode_raw
 DECODERS["life_mpmc_discard_check"] = decode_raw
 for _n in ("life_mpmc", "life_oneshot", "life_oneshot_bc", "life_state", "life_mpmc_check", "life_oneshot_bc_check", "life_state_check"):
